@@ -229,6 +229,196 @@ def all_ir_rules(repo, functions):
     out += rule_static_dispatch(repo)
     out += rule_dispatcher_wiring(repo)
     out += rule_coverage(repo, functions)
+    out += rule_stock_listener(repo)
+    return out
+
+
+# ------------------------------------------------------------------------------------------------ C16: composers' write frame
+COMPOSER_FILES = ['spydrnet/composers/__init__.py', 'spydrnet/composers/edif/composer.py', 'spydrnet/composers/edif/edifify_names.py',
+                  'spydrnet/composers/verilog/composer.py', 'spydrnet/composers/eblif/eblif_composer.py']
+# the documented side effects of the EDIF writer (property C16): (function, store target)
+DOCUMENTED_EDIF_EFFECTS = {('_edifify_netlist', 'netlist.libraries'), ('_edifify_netlist', 'library.definitions'),
+                           ('_edifify_netlist', 'netlist.name'), ('_add_rename_property', "obj['EDIF.identifier']"),
+                           ('_add_rename_property', "obj['EDIF.rename']")}
+CONT_MUT = {'append', 'insert', 'remove', 'clear', 'add', 'discard', 'update', 'extend', 'sort', 'reverse', 'popitem', 'setdefault', 'pop',
+            'appendleft', 'popleft'}
+NETLIST_MUT = IR_MUTATORS | {'clone', 'uniquify', 'flatten', '__setitem__', '__delitem__'}
+
+
+def _fresh_locals(fn):
+    fresh = set()
+    for n in ast.walk(fn):
+        if isinstance(n, ast.Assign) and len(n.targets) == 1 and isinstance(n.targets[0], ast.Name):
+            v = n.value
+            if isinstance(v, (ast.List, ast.Dict, ast.Set, ast.ListComp, ast.DictComp, ast.SetComp)) or (
+                    isinstance(v, ast.Call) and ast.unparse(v.func) in ('list', 'dict', 'set', 'deque', 'OrderedDict', 'sorted', 'collections.deque')):
+                fresh.add(n.targets[0].id)
+    return fresh
+
+
+def rule_composer_frame(repo):
+    """every store / delete / mutating call in the composer modules targets the composer object itself, a local or closure
+    container created in that function, an element of such a container, or a parameter that all call sites bind to such a
+    container -- or is one of the documented effects of the EDIF writer.  Any other site may write into the netlist."""
+    out = []
+    for rel in COMPOSER_FILES:
+        path = os.path.join(repo, rel)
+        if not os.path.exists(path):
+            out.append(('S/composer-frame/' + rel, False, 'file missing')); continue
+        t = _parse(path)
+        parents = {}
+        for n in ast.walk(t):
+            for ch in ast.iter_child_nodes(n): parents[ch] = n
+        fns = [n for n in ast.walk(t) if isinstance(n, ast.FunctionDef)]
+        def enclosing_fn(n):
+            while n in parents:
+                n = parents[n]
+                if isinstance(n, ast.FunctionDef): return n
+            return None
+        def fresh_in_scope(fn, name):
+            f = fn
+            while f is not None:
+                if name in _fresh_locals(f): return True
+                f = enclosing_fn(f)
+            return False
+        def param_bound_fresh(fn, name):
+            params = [a.arg for a in fn.args.args]
+            if name not in params: return False
+            idx = params.index(name)
+            sites = [c for c in ast.walk(t) if isinstance(c, ast.Call) and (
+                (isinstance(c.func, ast.Attribute) and c.func.attr == fn.name) or (isinstance(c.func, ast.Name) and c.func.id == fn.name))]
+            if not sites: return False
+            for c in sites:
+                off = 1 if (params and params[0] == 'self' and isinstance(c.func, ast.Attribute)) else 0
+                j = idx - off
+                arg = c.args[j] if 0 <= j < len(c.args) else next((k.value for k in c.keywords if k.arg == name), None)
+                caller = enclosing_fn(c)
+                if not (isinstance(arg, ast.Name) and caller is not None and fresh_in_scope(caller, arg.id)):
+                    return False
+            return True
+        def returns_fresh(m):
+            """method m of this module returns only containers it created itself (a fresh local, or a tuple of them)"""
+            rets = [r for r in ast.walk(m) if isinstance(r, ast.Return) and r.value is not None]
+            if not rets: return False
+            fr = _fresh_locals(m)
+            for r in rets:
+                elts = r.value.elts if isinstance(r.value, ast.Tuple) else [r.value]
+                if not all(isinstance(x, ast.Name) and x.id in fr for x in elts): return False
+            return True
+        def bound_to_fresh_result(fn, name):
+            for n in ast.walk(fn):
+                if isinstance(n, ast.Assign) and len(n.targets) == 1:
+                    tg = n.targets[0]
+                    names = [x.id for x in (tg.elts if isinstance(tg, ast.Tuple) else [tg]) if isinstance(x, ast.Name)]
+                    if name in names and isinstance(n.value, ast.Call) and isinstance(n.value.func, ast.Attribute) and \
+                            isinstance(n.value.func.value, ast.Name) and n.value.func.value.id == 'self':
+                        ms = [m for m in fns if m.name == n.value.func.attr]
+                        if ms and all(returns_fresh(m) for m in ms): return True
+            return False
+        def owned(fn, e):
+            """is expression e a composer-owned container?"""
+            if isinstance(e, ast.Name):
+                return e.id == 'self' or fresh_in_scope(fn, e.id) or param_bound_fresh(fn, e.id) or bound_to_fresh_result(fn, e.id)
+            if isinstance(e, ast.Attribute):
+                return isinstance(e.value, ast.Name) and e.value.id == 'self'
+            if isinstance(e, ast.Subscript):
+                return owned(fn, e.value)
+            return False
+        bad = []
+        for fn in fns:
+            for n in ast.walk(fn):
+                if enclosing_fn(n) is not fn: continue
+                sites = []
+                if isinstance(n, (ast.Assign, ast.AugAssign)):
+                    for tg in (n.targets if isinstance(n, ast.Assign) else [n.target]):
+                        if isinstance(tg, ast.Attribute) and not (isinstance(tg.value, ast.Name) and tg.value.id == 'self'):
+                            sites.append(('store', tg))
+                        if isinstance(tg, ast.Subscript) and not owned(fn, tg.value):
+                            sites.append(('store', tg))
+                if isinstance(n, ast.Delete):
+                    for tg in n.targets:
+                        if isinstance(tg, (ast.Attribute, ast.Subscript)) and not owned(fn, tg.value): sites.append(('del', tg))
+                if isinstance(n, ast.Call) and isinstance(n.func, ast.Attribute):
+                    a = n.func.attr
+                    if a in NETLIST_MUT and not (isinstance(n.func.value, ast.Name) and n.func.value.id == 'self'):
+                        if not (a in CONT_MUT and owned(fn, n.func.value)):
+                            sites.append(('call', n.func))
+                    elif a in CONT_MUT and not owned(fn, n.func.value):
+                        sites.append(('call', n.func))
+                for kind, e in sites:
+                    txt = ast.unparse(e)
+                    if (fn.name, txt) in DOCUMENTED_EDIF_EFFECTS and rel.endswith('edif/composer.py'):
+                        continue
+                    bad.append('%s:%d %s %s in %s' % (os.path.basename(rel), n.lineno, kind, txt, fn.name))
+        out.append(('S/composer-frame/' + rel.replace('spydrnet/composers/', ''), not bad, '; '.join(bad[:6])))
+    return out
+
+
+# ------------------------------------------------------------------------------------------------ stock listener (NamespaceManager) frame
+def rule_stock_listener(repo):
+    """the stock listener's hooks (a) never call an IR mutator and never store to anything but their own tables and the
+    '.NS' entry of the element, (b) refuse (raise) only before their first write -- the two facts behind the hook contracts
+    used by the IR proofs (specs/ir.py, IRSpec.callback)"""
+    out = []
+    files = sorted(glob.glob(repo + '/spydrnet/plugins/namespace_manager/*.py'))
+    bad = []
+    for f in files:
+        for n in ast.walk(_parse(f)):
+            if isinstance(n, ast.Call) and isinstance(n.func, ast.Attribute) and n.func.attr in IR_MUTATORS:
+                bad.append('%s:%d calls %s' % (os.path.basename(f), n.lineno, n.func.attr))
+            if isinstance(n, (ast.Assign, ast.AugAssign)):
+                for tg in (n.targets if isinstance(n, ast.Assign) else [n.target]):
+                    if isinstance(tg, ast.Subscript) and isinstance(tg.slice, ast.Constant) and tg.slice.value not in ('.NS',) \
+                            and isinstance(tg.value, ast.Name) and tg.value.id in ('element', 'child', 'parent', 'netlist', 'library',
+                                                                                   'definition', 'port', 'cable', 'instance'):
+                        bad.append('%s:%d stores %s' % (os.path.basename(f), n.lineno, ast.unparse(tg)))
+    out.append(('S/stock-listener/no-structural-effect', not bad, '; '.join(bad[:6])))
+    t = _parse(repo + '/spydrnet/plugins/namespace_manager/__init__.py')
+    cls = [n for n in t.body if isinstance(n, ast.ClassDef) and n.name == 'NamespaceManager'][0]
+    def writes(node):
+        w = []
+        for n in ast.walk(node):
+            if isinstance(n, ast.Call) and isinstance(n.func, ast.Attribute) and n.func.attr in ('update', 'apply_namespace', 'drop_namespace', 'remove'):
+                w.append(n.lineno)
+            if isinstance(n, (ast.Assign, ast.Delete)):
+                tgs = n.targets
+                if any(isinstance(tg, ast.Subscript) for tg in tgs): w.append(n.lineno)
+        return w
+    for fname in ('add', 'dictionary_set', 'dictionary_delete', 'dictionary_pop'):
+        fn = [f for f in cls.body if isinstance(f, ast.FunctionDef) and f.name == fname]
+        if not fn:
+            out.append(('S/stock-listener/refuses-before-writing/' + fname, False, 'hook not found')); continue
+        fn = fn[0]
+        problems = []
+        def is_write(st):
+            for n in ast.walk(st):
+                if isinstance(n, ast.Call) and isinstance(n.func, ast.Attribute) and n.func.attr in ('update', 'apply_namespace', 'drop_namespace', 'remove'):
+                    return True
+                if isinstance(n, (ast.Assign, ast.Delete)) and any(isinstance(tg, ast.Subscript) for tg in n.targets):
+                    return True
+            return False
+        def flow(stmts, written):
+            """written: set of booleans (has a write happened on some path reaching here?) -> set at exit"""
+            for st in stmts:
+                if isinstance(st, ast.Raise):
+                    if True in written: problems.append('raise at line %d reachable after a write' % st.lineno)
+                    return set()
+                if isinstance(st, ast.If):
+                    written = flow(st.body, set(written)) | flow(st.orelse, set(written))
+                elif isinstance(st, (ast.For, ast.While)):
+                    w1 = flow(st.body, set(written)); w2 = flow(st.body, set(written) | w1)
+                    written = written | w1 | w2
+                elif isinstance(st, ast.Return):
+                    return set()
+                else:
+                    if is_write(st): written = {True}
+            return written
+        flow(fn.body, {False})
+        out.append(('S/stock-listener/refuses-before-writing/' + fname, not problems, '; '.join(problems)))
+    for fname in ('remove',):
+        fn = [f for f in cls.body if isinstance(f, ast.FunctionDef) and f.name == fname][0]
+        rs = [n.lineno for n in ast.walk(fn) if isinstance(n, ast.Raise)]
+        out.append(('S/stock-listener/never-refuses/' + fname, not rs, 'raise at %s' % rs if rs else ''))
     return out
 
 
@@ -240,3 +430,5 @@ if __name__ == '__main__':
     for n, ok, d in res:
         if not ok: print('FAIL', n, d)
     print(len(res), 'rules,', sum(1 for r in res if r[1]), 'hold')
+
+
